@@ -5,6 +5,8 @@ This module contains functions which are imported as methods in the `FST` class 
 
 from __future__ import annotations
 
+import re
+
 from ast import literal_eval
 from io import BytesIO
 from tokenize import tokenize as tokenize_tokenize, STRING
@@ -459,6 +461,8 @@ def _get_one_JoinedStr_TemplateStr_values(
 ) -> _GetOneRet:
     raise NotImplementedError('get JoinedStr.values not implemented on python < 3.12')
 
+_re_ftstr_prefix = re.compile(r'''[a-zA-Z]{1,2}(\'\'\'|\"\"\"|\'|\")''')
+
 @pyver(ge=12)
 def _get_one_JoinedStr_TemplateStr_values(
     self: fst.FST, idx: int | None, field: str, cut: bool, options: Mapping[str, Any]
@@ -470,7 +474,9 @@ def _get_one_JoinedStr_TemplateStr_values(
     ln, col, _, _ = self.loc
     lines = self.root._lines
     l = lines[ln]
-    prefix = l[col : col + (4 if l.startswith('"""', col + 1) or l.startswith("'''", col + 1) else 2)]
+    m = _re_ftstr_prefix.match(l, col)  # must be there, the string prefix can have two letters, e.g. 'rf' or 'Rt'
+    prefix = m.group()
+    quotes = m.group(1)
 
     if child_cls is Constant:
         ret = fst.FST(copy_ast(child), Constant)  # this is because of implicit string madness
@@ -501,12 +507,11 @@ def _get_one_JoinedStr_TemplateStr_values(
         assert child_cls in ASTS_LEAF_FTSTR_FMT  # (FormattedValue, Interpolation)
 
         typ = 'f' if child_cls is FormattedValue else 't'
-        prefix = typ + prefix[1:]
-        fmt, _ = childf._make_fst_and_dedent(childf, copy_ast(child), childf.loc, prefix, prefix[1:], docstr=False)
+        fmt, _ = childf._make_fst_and_dedent(childf, copy_ast(child), childf.loc, prefix, quotes, docstr=False)
         lprefix = len(prefix)
         ret = fst.FST((JoinedStr if typ == 'f' else TemplateStr)
                       (values=[fmt.a], lineno=fmt.lineno, col_offset=fmt.col_offset - lprefix,
-                       end_lineno=fmt.end_lineno, end_col_offset=fmt.end_col_offset + lprefix - 1),
+                       end_lineno=fmt.end_lineno, end_col_offset=fmt.end_col_offset + len(quotes)),
                       fmt._lines, None, from_=self, lcopy=False)
 
     return ret
